@@ -963,6 +963,21 @@ func sysNth() *zkSys {
 		}}
 }
 
+// seededPrime: the first prime at or after a seeded odd number of exactly `bits` bits (deterministic from the seed)
+func seededPrime(c *Ctx, bits int) *big.Int {
+	b := c.Bytes((bits + 7) / 8)
+	x := new(big.Int).SetBytes(b)
+	x.SetBit(x, bits-1, 1)
+	for i := x.BitLen() - 1; i >= bits; i-- {
+		x.SetBit(x, i, 0)
+	}
+	x.SetBit(x, 0, 1)
+	for !x.ProbablyPrime(20) {
+		x.Add(x, big.NewInt(2))
+	}
+	return x
+}
+
 func sysFac() *zkSys {
 	pubOf := func(r zrec) zkfac.Public { return zkfac.Public{N: gMod(r["N"]), Aux: gPed(r["Aux"])} }
 	prfOf := func(r zrec) *zkfac.Proof {
@@ -976,13 +991,28 @@ func sysFac() *zkSys {
 			if w%2 == 1 {
 				P, Q, d = Q, P, "q,p (factors swapped)"
 			}
+			class := ""
+			if w >= nLat {
+				// the statement the proof exists to refuse: a modulus with a small factor (300 bits x 1748 bits). The
+				// ordinary prover's response for the large factor is then out of range (~2003 bits > 1 + l + eps + 1024)
+				// while every equation holds and the other response is in range: Verify must refuse it.
+				small, large := seededPrime(c, 300), seededPrime(c, 1748)
+				n := new(big.Int).Mul(small, large)
+				pub.N = saferith.ModulusFromNat(new(saferith.Nat).SetBig(n, n.BitLen()))
+				P, Q = new(saferith.Nat).SetBig(small, small.BitLen()), new(saferith.Nat).SetBig(large, large.BitLen())
+				d, class = "unbalanced factors 300 x 1748 bits (z2 out of range)", "range"
+				if w == nLat+1 {
+					P, Q = Q, P
+					d = "unbalanced factors 1748 x 300 bits (z1 out of range)"
+				}
+			}
 			pubRec := zrec{"N": vMod(pub.N), "Aux": vPed(kv.ped)}
 			prove := func(prefix []TV) zrec {
 				p := zkfac.NewProof(zkfac.Private{P: P, Q: Q}, hashOf(prefix), pub)
 				return zrec{"P": vNat(p.Comm.P), "Q": vNat(p.Comm.Q), "A": vNat(p.Comm.A), "B": vNat(p.Comm.B), "T": vNat(p.Comm.T),
 					"Sigma": vInt(p.Sigma), "Z1": vInt(p.Z1), "Z2": vInt(p.Z2), "W1": vInt(p.W1), "W2": vInt(p.W2), "V": vInt(p.V)}
 			}
-			return pubRec, prove, d, ""
+			return pubRec, prove, d, class
 		},
 		verify: func(h *hash.Hash, pub, r zrec) bool { return prfOf(r).Verify(pubOf(pub), h) },
 		wire:   func(r zrec) ([]byte, error) { return cbor.Marshal(prfOf(r)) },
